@@ -79,7 +79,7 @@ CHECKS = {
         "technique": "lock-step runtime monitor against the built-in list/set/dict on the same elements (return value, exception type, resulting contents modulo move-instead-of-duplicate) + world check after every call, also after calls that raise",
         "text": "MutableSequence on ir.modules (incl. extended slices, reverse, +=, index with bounds, self re-insertion, arguments as list/tuple/one-shot iterators/another IR's live list), MutableSet on the five node sets (binary operators both ways, comparisons, update with 0-2 iterables, in-place operators with plain sets, other owning collections and the collection itself, other-kind nodes as non-members), MutableMapping on symbolic_expressions (views kept across operations, ==, popitem, setdefault, whole-mapping assignment); world check after every call, also after calls that raise; ~260 operation kinds per quick run.",
         "design_ref": "DESIGN.md section 5 C16",
-        "note": "Same-list re-insertion judged by the weak contract stated in DESIGN.md; values passed in one call are distinct.",
+        "note": "Same-list re-insertion (and a value given twice in one call) judged by the weak contract stated in DESIGN.md.",
     },
     "C19": {
         "technique": "runtime monitor with reference model (bytearray + integer) over size/initialized_size/contents histories; arithmetic oracles for block views at all critical coordinates; save->load after steps; constructor/loader negatives",
